@@ -1,2 +1,74 @@
-/- stub: line-protocol driver for C08 (to be written) -/
-def main : IO Unit := pure ()
+/- Driver for C08: replays the callback traces logged by harness/c08.cpp (TraceBuilder over the real DocumentBuilder)
+   through the Lean builder model `step` and prints, per case,
+     M ...   a call after which the model's stack depths differ from the observed ones
+     U name  a callback the model has no clause for (its expression-stack effect is then taken from the trace)
+     I ok|<clause>   the executable form of the C08 invariant evaluated on the model's final state
+     E n     number of diagnostics the model recorded
+     D ...   the structural dump of the model's document (compared with the dump of the real Document)
+   Input = the harness output itself (BEGIN / C / END lines; everything else is ignored). -/
+import UtapModel.Model.BuilderTrace
+import UtapModel.Model.BuilderInv
+open UtapModel.Builder
+
+structure Case where
+  s : BState := BState.init
+  idx : Nat := 0
+  mism : List String := []
+  unmod : List String := []
+  prevF : Nat := 0
+  unsafeAt : Option String := none
+
+def fieldVal (toks : List String) (key : String) : Nat :=
+  match toks.find? (fun t => t.startsWith key) with
+  | some t => ((t.drop key.length).toString.toNat?).getD 0
+  | none => 0
+
+def handleCall (c : Case) (line : String) : Case :=
+  let toks := (line.trimAscii.toString.splitOn " ").filter (· ≠ "")
+  match toks with
+  | "C" :: depth :: name :: rest =>
+    if depth ≠ "0" then c else
+    let args := rest.takeWhile (· ≠ "|")
+    let tail := rest.dropWhile (· ≠ "|")
+    let obsF := fieldVal tail "F="
+    let obsR := fieldVal tail "R="
+    let (call, unm) : Call × Bool :=
+      match Call.ofTrace name args with
+      | some cl => (cl, false)
+      | none => (if obsF ≥ c.prevF then Call.frag 0 (obsF - c.prevF) else Call.frag (c.prevF - obsF) 0, true)
+    let safe := safeCall c.s call
+    let s' := step c.s call
+    let bad := s'.frames.length ≠ obsR ∨ s'.fragments.length ≠ obsF
+    { c with s := s', idx := c.idx + 1, prevF := obsF,
+             mism := if bad ∧ c.mism.length < 5 then
+                       c.mism ++ [s!"M {c.idx} {name} pred R={s'.frames.length} F={s'.fragments.length} obs R={obsR} F={obsF}"]
+                     else c.mism,
+             unmod := if unm ∧ !c.unmod.contains name then c.unmod ++ [name] else c.unmod,
+             unsafeAt := if !safe ∧ c.unsafeAt.isNone then some s!"{c.idx}:{name}" else c.unsafeAt }
+  | _ => c
+
+partial def loop (h : IO.FS.Stream) (out : IO.FS.Stream) (cur : Option Case) : IO Unit := do
+  let line ← h.getLine
+  if line.isEmpty then return ()
+  if line.startsWith "BEGIN " then
+    out.putStr line
+    loop h out (some {})
+  else if line.startsWith "END " then
+    match cur with
+    | some c =>
+      for m in c.mism do out.putStrLn m
+      for u in c.unmod do out.putStrLn s!"U {u}"
+      out.putStrLn s!"I {invReport c.s}"
+      out.putStrLn s!"S {match c.unsafeAt with | some w => w | none => "ok"}"
+      out.putStrLn s!"E {c.s.diags}"
+      for d in c.s.dump do out.putStrLn s!"D {d}"
+    | none => pure ()
+    out.putStr line
+    loop h out none
+  else
+    match cur with
+    | some c => loop h out (some (if line.startsWith "C " then handleCall c line else c))
+    | none => loop h out none
+
+def main : IO Unit := do
+  loop (← IO.getStdin) (← IO.getStdout) none
